@@ -221,6 +221,28 @@ def r1(ctx):
                       else 'every element is selected, the range is the whole selection'), key=f'removal:{src(t.value)}',
                      what=f'range deletion over a non-contiguous selection ({nm})')
     ty = buffer_types(f)
+    # the buffers keep the order in which molecules were created (a fragment joins the FIRST buffered molecule that accepts it, C07-R6): no
+    # element of a buffer is overwritten, and a buffer is never sorted / reversed
+    cls_ = ctx.ix.cls(MOLITER, 'MoleculeIterator')
+    reorder = []
+    for m_ in [x for x in cls_.body if isinstance(x, ast.FunctionDef)]:
+        tym = buffer_types(m_)
+        params_ = {a_.arg for a_ in m_.args.args}
+        callers_pass_buffer = {a_.arg for a_ in m_.args.args if any(isinstance(c_, ast.Call) and isinstance(c_.func, ast.Attribute) and c_.func.attr == m_.name and any(
+            any(k_ == 'L' for k_, b_ in ty(arg_)) for arg_ in c_.args) for c_ in walk_no_nested(f))}
+        for n_ in walk_no_nested(m_):
+            tgt = None
+            if isinstance(n_, ast.Assign):
+                for t_ in n_.targets:
+                    if isinstance(t_, ast.Subscript) and not isinstance(t_.slice, ast.Slice):
+                        tgt = t_.value
+            elif isinstance(n_, ast.Call) and isinstance(n_.func, ast.Attribute) and n_.func.attr in ('sort', 'reverse'):
+                tgt = n_.func.value
+            if tgt is not None and (any(k_ == 'L' for k_, b_ in tym(tgt)) or (isinstance(tgt, ast.Name) and tgt.id in callers_pass_buffer)):
+                reorder.append((m_.name, n_))
+    ctx.emit('C07-R1', not reorder, MOLITER, reorder[0][1] if reorder else f, 'the molecule buffers are never re-ordered (no element overwritten, no sort / reverse)' if not reorder else
+             f'MoleculeIterator.{reorder[0][0]} re-orders a molecule buffer (`{src(reorder[0][1])[:50]}`): which molecule a later fragment joins depends on when the buffer was last checked',
+             key='buffer-order-preserved', what='a molecule buffer is re-ordered while molecules are ejected')
     covered = {b for loop, cont, idx, node in sites for k, b in ty(cont) if k == 'L'} | \
               {b for d in walk_no_nested(f) if isinstance(d, ast.Delete) for t in d.targets if isinstance(t, ast.Subscript) and isinstance(t.slice, ast.Slice) for k, b in ty(t.value) if k == 'L'}
     ctx.need('C07-R1', n, 1, 'index-based removals in the ejection loops')
@@ -481,6 +503,14 @@ def r3(ctx):
     for b, ok in buffers.items():
         ctx.emit('C07-R3', ok, MOLITER, main, f'after the read loop buffer {b} is ' + ('drained: every element finalised and yielded' if ok else 'NOT drained'),
                  key=f'final-drain:{b}')
+    # (c') every pass starts from empty buffers: an iteration that was abandoned half way must not leave its molecules to absorb the reads of
+    # the next pass a second time
+    before = f.body[:f.body.index(main)]
+    cleared = any(isinstance(s_, ast.Expr) and isinstance(s_.value, ast.Call) and src(s_.value.func) == 'self._clear_cache' for s_ in before) or \
+        {'self.molecules', 'self.molecules_per_cell'} <= {src(t_) for s_ in before if isinstance(s_, ast.Assign) for t_ in s_.targets}
+    ctx.emit('C07-R3', cleared, MOLITER, main, 'the buffers are emptied before the read loop starts' if cleared else
+             'the buffers are not emptied at the start of an iteration: molecules left by an abandoned pass take part in the next one (fragments emitted twice)',
+             key='buffers-cleared-at-start', what='MoleculeIterator.__iter__ does not start from empty buffers')
     # (c) the drain is followed by a cache reset, and nothing yields after it
     # (d) per-cell ejection iterates every hash group
     sel = [l for l in walk_no_nested(main) if isinstance(l, ast.For) and any(k in (('I', 'L'), ('I', ('P', 'L'))) and b_ == 'self.molecules_per_cell' for k, b_ in ty(l.iter))]
